@@ -18,7 +18,14 @@ T=$(cargo test --workspace --no-fail-fast --offline 2>&1 | grep -E "^test result
 echo "repo tests with change: $T" | tee -a "$LOG"
 B=$(cargo build --offline --features "verif_hooks executor block_on signals stream futures-io" 2>&1 | grep -cE "^error")
 echo "build with all features + hooks: errors=$B" | tee -a "$LOG"
-if [ -f "$DEST/demo.rs" ]; then
+if [ -f "$DEST/demo.rs" ] && grep -q "^fn main" "$DEST/demo.rs"; then
+  cp "$DEST/demo.rs" examples/seed_demo.rs
+  DW=$(timeout 300 cargo run --offline --features "executor block_on signals stream futures-io" --example seed_demo >/tmp/evalseed_demo.txt 2>&1; echo "exit=$?"; tail -2 /tmp/evalseed_demo.txt | tr '\n' ' ')
+  echo "demo (example) WITH change: $DW" | tee -a "$LOG"
+  git apply -R "$DEST/patch.diff"
+  DO=$(timeout 300 cargo run --offline --features "executor block_on signals stream futures-io" --example seed_demo >/tmp/evalseed_demo.txt 2>&1; echo "exit=$?"; tail -2 /tmp/evalseed_demo.txt | tr '\n' ' ')
+  echo "demo (example) WITHOUT change: $DO" | tee -a "$LOG"
+elif [ -f "$DEST/demo.rs" ]; then
   cp "$DEST/demo.rs" tests/seed_demo.rs
   grep -q 'name = "seed_demo"' Cargo.toml || printf '\n[[test]]\nname = "seed_demo"\n' >> Cargo.toml
   FEAT=$(grep -o 'required-features.*' "$DEST/demo_howto.txt" 2>/dev/null | head -1)
